@@ -16,6 +16,22 @@ from fractions import Fraction
 import z3
 
 
+# z3py turns a Python float into the rational of its *decimal repr* (RealVal(str(x))); make it the exact binary value,
+# consistent with lift() below, wherever a float meets a z3 term
+_z3_RealVal = z3.z3.RealVal
+
+
+def _exact_RealVal(val, ctx=None):
+    if isinstance(val, float):
+        f = Fraction(val)
+        val = f"{f.numerator}/{f.denominator}"
+    return _z3_RealVal(val, ctx)
+
+
+z3.z3.RealVal = _exact_RealVal
+z3.RealVal = _exact_RealVal
+
+
 # ----------------------------------------------------------------------------------------------
 # control-flow exceptions (BaseException so that `except Exception` in code under test cannot
 # swallow them)
